@@ -914,7 +914,8 @@ def _width(eng, t, a, fr, dt):
     if c.concrete:
         w = tables.width(c.v)
         return NONE if w is None else some(Int('usize', w))
-    conds = tables.width_class_conds(c.v)   # [(cond, width or None)]
+    low = eng.ctx.branch(z3.ULT(c.v, tables.SPLIT))
+    conds = tables.width_class_conds(c.v, low)   # [(cond, width or None)]
     i = eng.ctx.choose([cd for cd, _ in conds])
     w = conds[i][1]
     return NONE if w is None else some(Int('usize', w))
@@ -925,7 +926,8 @@ def _is_combining(eng, t, a, fr, dt):
     c = deref_all(a[0])
     if c.concrete:
         return tables.is_combining(c.v)
-    return tables.combining_cond(c.v)
+    low = eng.ctx.branch(z3.ULT(c.v, tables.SPLIT))
+    return tables.combining_cond(c.v, low)
 
 
 @reg('UnicodeNormalization::nfc')
@@ -1836,6 +1838,11 @@ def _collect(eng, t, a, fr, dt):
     if type(it) is Iter and it.kind == 'nfc':
         s = it.s[0]
         if not s.concrete():
+            if len(s.c) == 1:
+                # a single character is its own NFC unless it is one of the ~1100 singleton decompositions
+                if eng.ctx.branch(tables.nfc_unstable_cond(s.c[0])):
+                    raise Unmodelled('nfc of symbolic string (singleton decomposition)')
+                return s
             raise Unmodelled('nfc of symbolic string')
         return Str.of(tables.nfc(s.py()))
     if tb == 'HashSet' and type(it) is Iter and it.kind in ('gset', 'gfilter', 'gcloned'):
